@@ -24,7 +24,7 @@ from automata.fa.nfa import NFA
 
 from harness import gen
 from harness import nfaops_lib as L
-from harness.common import Ctx, Names, call
+from harness.common import Ctx, Names, call, nfa_iso
 
 LEVEL = "proof"
 RULE = ("cases = (operation, valid NFA operand(s)); corpus of past defects (F6, F12), bounded-exhaustive small "
@@ -141,6 +141,20 @@ def oracle(ctx: Ctx, op: str, A: NFA, B, res, case: dict, thorough_equiv: bool =
     return facts
 
 
+def _same_up_to_renaming(impl, mod) -> bool:
+    def live(p):
+        # rows keyed by names that are not states (accepted by validation, never reachable: every
+        # target is a state) play no role in the language; which of them survive an operation is
+        # not part of the property
+        st = set(p["states"])
+        return dict(p, trans={k: r for k, r in p["trans"].items() if k in st})
+    try:
+        return (impl[0] == "ok" and mod[0] == "ok" and isinstance(impl[1], dict) and isinstance(mod[1], dict)
+                and len(impl[1]["states"]) <= 40 and nfa_iso(live(impl[1]), live(mod[1])))
+    except Exception:  # noqa: BLE001
+        return False
+
+
 def check_op(ctx: Ctx, op: str, A: NFA, B, origin: str):
     """One case; returns the real result NFA (or None)."""
     drv = ctx.driver("drv_nfa_ops")
@@ -196,7 +210,14 @@ def check_op(ctx: Ctx, op: str, A: NFA, B, origin: str):
         ctx.sample(dict(op=op, A=repr(A), B=repr(B) if B is not None else None,
                         result=repr(res[1]) if res[0] == "ok" else res, model_line=line[:400]))
     if impl != mod:
-        ctx.corr_diff("NFA_OP " + op, case, impl, mod)
+        if _same_up_to_renaming(impl, mod):
+            # the code and the model produce the same automaton up to a bijective renaming of its
+            # states (e.g. another choice of the fresh initial state).  C08 speaks about languages
+            # and validity only, and both are invariant under an injective renaming
+            # (Proofs/NFAMapStates.lean: mapStates_valid_lang), so the theorems carry over.
+            ctx.stat("result_equal_to_model_up_to_state_renaming")
+        else:
+            ctx.corr_diff("NFA_OP " + op, case, impl, mod)
     return res[1] if res[0] == "ok" and isinstance(res[1], NFA) else None
 
 
